@@ -30,7 +30,7 @@ NAMES = ["ax", "ay", "az", "tagx", "tagy", "tagz", "rnd"]
 
 
 def cases(tier, seed):
-    n = 8 if tier == "quick" else 90
+    n = 20 if tier == "quick" else 120
     rng = random.Random(seed + 700)
     cs = []
     for i in range(n):
@@ -41,7 +41,9 @@ def cases(tier, seed):
             g["bf"] = 2; g["base_blocks"] = (2, 3)
         if i % 5 == 4:
             g["full_refine"] = True
-        cs.append({"gen": g, "sel_seed": seed * 47 + i, "per_class": 2 if tier == "quick" else 3})
+        for n in range(3):      # one case per normal: the 4-level plotfiles are the long poles
+            cs.append({"gen": g, "sel_seed": seed * 47 + i * 3 + n, "per_class": 2 if tier == "quick" else 3,
+                       "normals": [n]})
     return cs
 
 
@@ -124,7 +126,7 @@ def run_case(case, work, rec):
     rec.sample({"plotfile": gen.describe(m)})
     finest = m.nlevels - 1
     vols = {}
-    for n in range(3):
+    for n in case.get("normals", [0, 1, 2]):
         for limit in ([None] if finest == 0 else [None, rng.randrange(finest)]):
             L = finest if limit is None else limit
             if L not in vols:
@@ -196,6 +198,8 @@ def run_case(case, work, rec):
                 rec.count("out_of_domain_refused")
                 rec.ok(key, False)
     # one Mandoline instance reused for several explicit slices == fresh instances
+    if 0 not in case.get("normals", [0]):
+        return
     poison.set_poison(np.nan)
     md = Mandoline(path, fields=["rnd", "grid_level"], serial=True, verbose=0)
     for _ in range(4):
